@@ -64,6 +64,23 @@ pub fn fri_commit_rounds(
     (commitments, eval_points)
 }
 
+// Checks that the unsent commitment has the shape that fri_commit relies on: at least
+// n_layers - 1 inner layer commitments and exactly 2^log_last_layer_degree_bound coefficients.
+pub fn fri_validate_unsent_commitment(
+    unsent_commitment: &types::UnsentCommitment,
+    config: &FriConfig,
+) -> Result<(), Error> {
+    if Felt::from(unsent_commitment.inner_layers.len()) + Felt::ONE < config.n_layers {
+        return Err(Error::InvalidValue);
+    }
+    if Felt::TWO.pow_felt(&config.log_last_layer_degree_bound)
+        != Felt::from(unsent_commitment.last_layer_coefficients.len())
+    {
+        return Err(Error::InvalidValue);
+    }
+    Ok(())
+}
+
 pub fn fri_commit(
     transcript: &mut Transcript,
     unsent_commitment: types::UnsentCommitment,
